@@ -675,6 +675,9 @@ func c31Run(st *c31Stats, r *kit.Rand, mode RunMode, version uint64, prog []byte
 			st.HarnessErrs = append(st.HarnessErrs, fmt.Sprintf("panic inside the harness: %v at %s", pe.PanicValue, frame))
 		default:
 			key := "panic-error"
+			if fn, _, ok := strings.Cut(frame, "("); ok {
+				st.Counters["recovered_panic@"+fn[strings.LastIndex(fn, "/")+1:]]++
+			}
 			if cfg.trace {
 				key = "panic-error-with-trace-enabled"
 			}
